@@ -173,12 +173,57 @@ fn expect_partial(a: &gen::Annotated) -> Expect {
     Expect { raw: a.chars.iter().collect(), labels: a.labels.clone(), tags: a.tags.clone() }
 }
 
-fn gen_update(rng: &mut Rng, k: &HistKnobs, ctor: bool) -> Op {
+/// Derives a text from one the client used before: the same text again, a prefix, a suffix, an
+/// extension or a one-character change. History defects typically need *related* consecutive
+/// inputs (same text under another annotation, same length, shared prefix), which independent
+/// random texts almost never produce.
+fn related_chars(rng: &mut Rng, recent: &[Vec<char>]) -> Vec<char> {
+    let base = rng.pick(recent).clone();
+    let mut v = match rng.below(8) {
+        0..=2 => base,
+        3 => base[..rng.range(1, base.len())].to_vec(),
+        4 => base[rng.below(base.len())..].to_vec(),
+        5 => {
+            let mut b = base;
+            for _ in 0..rng.range(1, 3) {
+                b.push(gen::gen_char(rng));
+            }
+            b
+        }
+        6 => {
+            let mut b = base;
+            let i = rng.below(b.len());
+            b[i] = gen::gen_char(rng);
+            b
+        }
+        _ => {
+            let mut b = base;
+            b.reverse();
+            b
+        }
+    };
+    if v.is_empty() {
+        v.push('あ');
+    }
+    v
+}
+
+fn gen_update(rng: &mut Rng, k: &HistKnobs, ctor: bool, recent: &mut Vec<Vec<char>>) -> Op {
     // the three formats, about 45 % of the annotated inputs being exact renderings with
-    // generator ground truth attached
+    // generator ground truth attached; a quarter of the inputs are related to earlier ones
+    let related = !recent.is_empty() && rng.chance(1, 4);
+    let mut remember = |cs: Vec<char>, recent: &mut Vec<Vec<char>>| {
+        if !cs.is_empty() && !cs.contains(&'\0') {
+            if recent.len() >= 4 {
+                recent.remove(0);
+            }
+            recent.push(cs);
+        }
+    };
     match rng.below(3) {
         0 => {
-            let s = clip(gen::gen_raw_input(rng), k.max_text);
+            let s = if related { related_chars(rng, recent).into_iter().collect() } else { clip(gen::gen_raw_input(rng), k.max_text) };
+            remember(s.chars().collect(), recent);
             let owned = rng.chance(1, 2);
             if ctor {
                 Op::NewRaw { s, owned }
@@ -187,8 +232,14 @@ fn gen_update(rng: &mut Rng, k: &HistKnobs, ctor: bool) -> Op {
             }
         }
         1 => {
-            if rng.chance(9, 20) && k.max_text >= 12 {
-                let a = gen::gen_annotated(rng, false);
+            if related || (rng.chance(9, 20) && k.max_text >= 12) {
+                let a = if related {
+                    let cs = related_chars(rng, recent);
+                    gen::gen_annotated_over(rng, cs, false)
+                } else {
+                    gen::gen_annotated(rng, false)
+                };
+                remember(a.chars.clone(), recent);
                 let s = gen::render_tokenized(&a);
                 if ctor {
                     Op::NewTokenized { s }
@@ -205,8 +256,14 @@ fn gen_update(rng: &mut Rng, k: &HistKnobs, ctor: bool) -> Op {
             }
         }
         _ => {
-            if rng.chance(9, 20) && k.max_text >= 12 {
-                let a = gen::gen_annotated(rng, true);
+            if related || (rng.chance(9, 20) && k.max_text >= 12) {
+                let a = if related {
+                    let cs = related_chars(rng, recent);
+                    gen::gen_annotated_over(rng, cs, true)
+                } else {
+                    gen::gen_annotated(rng, true)
+                };
+                remember(a.chars.clone(), recent);
                 let s = gen::render_partial(&a);
                 if ctor {
                     Op::NewPartial { s }
@@ -281,6 +338,7 @@ pub fn gen_plan(rng: &mut Rng, k: &HistKnobs) -> HistPlan {
     for _ in 0..n_clients {
         let n_ops = rng.range(1, k.max_ops);
         let mut ops = vec![];
+        let mut recent: Vec<Vec<char>> = vec![];
         // swarm: each client draws its own operation mix
         let w_update = if k.focus == Focus::C05 { rng.range(20, 60) } else { rng.range(8, 30) };
         let w_ctor = rng.range(0, 6);
@@ -292,12 +350,12 @@ pub fn gen_plan(rng: &mut Rng, k: &HistKnobs) -> HistPlan {
         let w_sett = rng.range(0, 8);
         while ops.len() < n_ops {
             match rng.weighted(&[w_update, w_ctor, w_reset, w_predict, w_fill, w_filter, w_setb, w_sett]) {
-                0 => ops.push(gen_update(rng, k, false)),
+                0 => ops.push(gen_update(rng, k, false, &mut recent)),
                 1 => {
                     if rng.chance(1, 8) {
                         ops.push(Op::NewDefault)
                     } else {
-                        ops.push(gen_update(rng, k, true))
+                        ops.push(gen_update(rng, k, true, &mut recent))
                     }
                 }
                 2 => ops.push(Op::ResetTags(rng.range(0, 3))),
@@ -330,7 +388,8 @@ pub fn gen_plan(rng: &mut Rng, k: &HistKnobs) -> HistPlan {
         }
         if k.focus == Focus::C08 {
             // the statement's closing segment: update_raw(x); predict; [fill_tags]
-            ops.push(Op::UpdateRaw { s: clip(gen::gen_text(rng), k.max_text), owned: rng.chance(1, 2) });
+            let last = if !recent.is_empty() && rng.chance(1, 3) { related_chars(rng, &recent).into_iter().collect() } else { clip(gen::gen_text(rng), k.max_text) };
+            ops.push(Op::UpdateRaw { s: last, owned: rng.chance(1, 2) });
             ops.push(Op::Predict(rng.below(preds.len())));
             if rng.chance(2, 3) {
                 ops.push(Op::FillTags);
@@ -400,11 +459,9 @@ pub fn build_predictors(plan: &HistPlan) -> Built {
     }
     for p in &plan.preds {
         let bytes = plan.models[p.model].to_bytes();
-        let r = guarded(|| {
-            let (model, rest) = Model::read_slice(&bytes).map_err(|e| e.to_string())?;
-            if !rest.is_empty() {
-                return Err("trailing bytes".to_string());
-            }
+        let r: Option<Result<Predictor, String>> = guarded(|| {
+            // (what read_slice returns as remainder is C07's business, not this engine's)
+            let (model, _rest) = Model::read_slice(&bytes).map_err(|e| e.to_string())?;
             let mut pr = Predictor::new(model, p.predict_tags).map_err(|e| e.to_string())?;
             pr.store_tag_scores(p.store_scores);
             Ok(pr)
